@@ -92,6 +92,9 @@ class Relay(W.NetPolicy):
         # late copies of downstream answers: [{"dseq": s, "delays_us": [...]}]: every NULL / PRIVATE answer that carries
         # data of downstream packet s is delivered again after each of the delays
         self.dup_down = kw.get("dup_down", [])
+        # held-back upstream data queries: [{"useq": s, "ufrag": f, "delay_us": d, "count": n}]: the first n data queries
+        # that carry fragment f of upstream packet s travel d microseconds longer (two consecutive queries swap places)
+        self.hold_up = [dict(h) for h in kw.get("hold_up", [])]
 
     # -- transformations
     def _case(self, mode, b):
@@ -251,6 +254,15 @@ class Relay(W.NetPolicy):
                         for delay in dd["delays_us"]:
                             for data, src, dst in outs:
                                 res.append((self.latency + delay, data, src, dst, {"late_copy": ds}))
+        if to_server and self.hold_up and outs and dg.data[:3] != proto.RAW_HDR:
+            m = D.parse(dg.data)
+            if not m.errors and m.qd and not m.qr:
+                c = proto.classify_query(m.qd[0][0], self.domain)
+                for h in self.hold_up:
+                    if c["kind"] == "data" and (c["useq"], c["ufrag"]) == (h["useq"], h["ufrag"]) and h.get("count", 1) > 0:
+                        h["count"] = h.get("count", 1) - 1
+                        self.log.append(("q", self.count["q"] - 1, "held"))
+                        return res + [(self.latency + h["delay_us"], data, src, dst) for data, src, dst in outs]
         for data, src, dst in outs:
             if f == "id0" and to_server and len(data) > 2 and data[:3] != proto.RAW_HDR:
                 # a relay that happens to pick DNS id 0 for the forwarded query ("no query" for the server)
@@ -369,7 +381,7 @@ class Session:
     def __init__(self, bdir, seed=1, relay=None, nclients=1, qtype="NULL", downenc=None, lazy=1,
                  maxlen=None, fragsize=None, raw=False, interval=None, server_args=(), netbits=24,
                  password=PASSWORD, domain=DOMAIN, tag="s", client_pw=None, dump_users=False,
-                 server_domain=None, occupy=0, prior=False):
+                 server_domain=None, occupy=0, prior=False, hs_tun=0):
         self.relay = relay or Relay(seed)
         self.w = W.World(bdir, seed=seed, policy=self.relay, tag=tag)
         self.w.dump_users = dump_users
@@ -390,6 +402,10 @@ class Session:
         if prior:
             self._prior_session(password, domain, prior if isinstance(prior, dict) else {})
         self.clients = []
+        # packets for the client that turn up on the server's tun device while the handshake is still going on (right after
+        # the login was accepted - a peer behind the server that keeps talking to a reconnecting client)
+        self.hs_tun = hs_tun
+        self.hs_frames = []
         self.cfg = dict(qtype=qtype, downenc=downenc, lazy=lazy, maxlen=maxlen, fragsize=fragsize,
                         raw=raw, interval=interval)
         for k in range(nclients):
@@ -465,10 +481,19 @@ class Session:
         inst = self.w.insts[name]
         return inst.state == "sel" and inst.tunfd in inst.selfds
 
+    def _hs_pred(self, w):
+        if self.hs_tun and not self.hs_frames:
+            us = [u for u in w.users() if u["active"] and u["auth"]]
+            if us:
+                rng = random.Random(4711)
+                for j in range(self.hs_tun):
+                    fr = make_packet(self.server_ip, TUN_NET + ".%d" % (us[0]["u"] + 2), "text", 60 + j, rng, 9000 + j)
+                    self.hs_frames.append(fr)
+                    w.tun_inject("S", fr, at=w.now + 150 * j)
+        return all(self.handshake_done(c) or w.insts[c].state == "dead" for c in self.clients)
+
     def handshake(self, limit=600_000_000):
-        ok = self.w.run_until(t=self.w.now + limit,
-                              pred=lambda w: all(self.handshake_done(c) or w.insts[c].state == "dead"
-                                                 for c in self.clients))
+        ok = self.w.run_until(t=self.w.now + limit, pred=self._hs_pred)
         return all(self.handshake_done(c) for c in self.clients)
 
     def client_tun_ip(self, k):
